@@ -9,28 +9,80 @@ OVERLAY = {"zz_verif_reload_test.go": os.path.join(vlib.ROOT, "harness", "overla
            "zz_verif_handover_test.go": os.path.join(vlib.ROOT, "harness", "overlay", "main", "handover_test.go")}
 
 
+LOCKDIR = "/tmp/verif-portlocks"
+_reserved = []
+
+
+def _pid_alive(pid):
+    try:
+        os.kill(pid, 0)
+        return True
+    except ProcessLookupError:
+        return False
+    except Exception:
+        return True
+
+
+def _reserve(p):
+    """cross-process reservation of a port number (several checks may run on this machine at the same time)"""
+    os.makedirs(LOCKDIR, exist_ok=True)
+    f = os.path.join(LOCKDIR, str(p))
+    for attempt in (1, 2):
+        try:
+            fd = os.open(f, os.O_CREAT | os.O_EXCL | os.O_WRONLY, 0o644)
+            os.write(fd, str(os.getpid()).encode())
+            os.close(fd)
+            _reserved.append(f)
+            return True
+        except FileExistsError:
+            try:
+                pid = int(open(f).read().strip() or "0")
+            except Exception:
+                pid = 0
+            if pid and _pid_alive(pid):
+                return False
+            try:
+                os.remove(f)      # stale reservation
+            except OSError:
+                return False
+    return False
+
+
+def release_ports():
+    for f in _reserved:
+        try:
+            os.remove(f)
+        except OSError:
+            pass
+    del _reserved[:]
+
+
+import atexit
+atexit.register(release_ports)
+
+
 def free_ports(n, seed):
-    """ports outside the ephemeral range, free for tcp and udp on 127.0.0.1 and the wildcard address"""
+    """ports outside the ephemeral range, reserved across processes, free for tcp and udp on 127.0.0.1 and the wildcard"""
     rng = random.Random(seed * 7919 + os.getpid())
     out = []
     tries = 0
-    while len(out) < n and tries < 5000:
+    while len(out) < n and tries < 40000:
         tries += 1
         p = 20000 + rng.randrange(12000)
-        if p in out:
+        if p in out or not _reserve(p):
             continue
         ok = True
         for fam, typ, addr in ((socket.AF_INET, socket.SOCK_STREAM, "127.0.0.1"), (socket.AF_INET, socket.SOCK_DGRAM, "127.0.0.1"),
                                (socket.AF_INET6, socket.SOCK_STREAM, "::"), (socket.AF_INET6, socket.SOCK_DGRAM, "::")):
-            s = socket.socket(fam, typ)
+            so = socket.socket(fam, typ)
             try:
                 if typ == socket.SOCK_STREAM:
-                    s.setsockopt(socket.SOL_SOCKET, socket.SO_REUSEADDR, 1)
-                s.bind((addr, p))
+                    so.setsockopt(socket.SOL_SOCKET, socket.SO_REUSEADDR, 1)
+                so.bind((addr, p))
             except OSError:
                 ok = False
             finally:
-                s.close()
+                so.close()
             if not ok:
                 break
         if ok:
@@ -65,6 +117,7 @@ def run_harness(ctx, scenarios, name, run_re="TestVerifReload", timeout=1500):
         raise vlib.Inconclusive("reload overlay harness does not compile against the working tree:\n" + txt[-3000:])
     if rc != 0 or not os.path.exists(out):
         raise vlib.Inconclusive("reload harness failed (rc=%d):\n%s" % (rc, txt[-3000:]))
+    release_ports()
     rows = vlib.read_ndjson(out)
     if not rows or rows[-1].get("ev") != "Done":
         raise vlib.Inconclusive("reload harness did not finish:\n%s" % txt[-2000:])
@@ -157,6 +210,7 @@ def run_process(ctx, scenarios, name, timeout=1500):
     rc, o, e = vlib.run([drv, "-bin", server, "-in", inp, "-out", out], env=vlib.goenv(), timeout=timeout)
     if rc != 0 or not os.path.exists(out):
         raise vlib.Inconclusive("procdrive failed (rc=%d): %s" % (rc, e[-2000:]))
+    release_ports()
     rows = vlib.read_ndjson(out)
     if not rows or rows[-1].get("ev") != "Done":
         raise vlib.Inconclusive("procdrive did not finish: %s" % e[-1500:])
